@@ -490,6 +490,10 @@ func checkC07(p *Prog, r *Report) {
 			r.Fail("source cache keys", "candidate_base.go", "cache accesses not found (rule instance lost)")
 		}
 	}
+
+	// ---- R7.6 queued datagrams keep their contents ----------------------------------------------------------
+	r.Rule("R7.6", "On the ICE-TCP receive path each de-framed datagram is queued as a private copy, never as a slice of the reader's reused buffer (shared with C14 R14.9): what the application reads is what the peer sent, also under a backlog.", 1)
+	checkQueuedPacketsOwnTheirBytes(p, r)
 }
 
 // constNameOrVar renders an error sentinel or variable name.
@@ -516,5 +520,36 @@ func stripConv(p *Prog, e ast.Expr) ast.Expr {
 			return unparen(e)
 		}
 		e = c.Args[0]
+	}
+}
+
+
+// checkWritesRequireOpenAgent: every data write of Conn is made only where loop.Err() was nil
+// (shared by C07 R7.1, where it is part of the write-path rule, and C08 R8.14).
+func checkWritesRequireOpenAgent(p *Prog, r *Report) {
+	for _, name := range []string{"Conn.Write", "Conn.WriteToPair"} {
+		f := p.Fn(name)
+		if !r.Anchor(name, f != nil) {
+			continue
+		}
+		writes := p.CallsTo(f, false, "ice.CandidatePair.Write")
+		ok := len(writes) > 0
+		for _, w := range writes {
+			facts, _ := p.FactsAtCall(f, w)
+			_, open := p.HasCallEqNil(facts, f, "taskloop.Loop.Err", 0, true)
+			if !open {
+				open = factListHas(p.DominatingFactList(f, w), func(ft Fact) bool {
+					if ft.Op != "==" || !ft.Val || ft.Y == nil || !p.isNilExpr(ft.Y) {
+						return false
+					}
+					_, okC := p.exprIsCallTo(f, ft.X, "taskloop.Loop.Err", 0)
+					return okC
+				})
+			}
+			if !open {
+				ok = false
+			}
+		}
+		r.Check(ok, name+": a closed agent refuses the write", p.Pos(f.Body.Pos()), "the socket write is dominated by loop.Err() == nil", "a write on a closed agent reaches the candidate's socket instead of returning the closed error: a later API call does not 'return promptly and without effect' (with a plain UDP candidate it even reports success)")
 	}
 }
